@@ -8,6 +8,7 @@ import (
 	"strings"
 
 	"pault.ag/go/debian/control"
+	"pault.ag/go/debian/deb"
 	"pault.ag/go/debian/dependency"
 
 	"verif/harness/core"
@@ -84,6 +85,10 @@ func init() {
 				return "err"
 			}
 			return "ok " + core.Hex(s)
+		},
+		"acc-srcname": func(a []string) string {
+			c := deb.Control{Package: core.MustUnHex(a[0]), Source: core.MustUnHex(a[1])}
+			return core.Hex(c.SourceName())
 		},
 		"acc-srcpkg": func(a []string) string {
 			b := control.BinaryIndex{Package: core.MustUnHex(a[0]), Source: core.MustUnHex(a[1])}
@@ -221,6 +226,7 @@ func streamAccessors(g *core.G) {
 			args = append(args, core.Hex(r.Pick(names)))
 		}
 		g.Emit("acc-debsrc", args...)
+		g.Emit("acc-srcname", core.Hex(r.Pick([]string{"foo", "libfoo1", ""})), core.Hex(r.Pick([]string{"", "foo", "foo (1.0-1)", " ", "src"})))
 		g.Emit("acc-srcpkg", core.Hex(r.Pick([]string{"foo", "libfoo1", ""})), core.Hex(r.Pick([]string{"", "foo", "foo (1.0-1)", "foo  (1.0)", " foo", "foo ", "a b c", " "})))
 		// best checksums
 		args = nil
